@@ -219,7 +219,17 @@ class DocActions(object):
     self._engine.rebuild_usercode()
 
     schema_table_info.columns[col_id] = new
-    self._engine.rebuild_usercode()
+    try:
+      self._engine.rebuild_usercode()
+    except Exception:
+      # The old column object is gone by now. Re-create the column as it was and put its data
+      # back before failing, so that reverting the schema doesn't leave the column empty.
+      schema_table_info.columns[col_id] = old
+      self._engine.rebuild_usercode()
+      restored_column = table.get_column(col_id)
+      for row_id in table.row_ids:
+        restored_column.set(row_id, old_column.raw_get(row_id))
+      raise
 
     # Fill in the new column with the values from the old column.
     new_column = table.get_column(col_id)
